@@ -20,6 +20,9 @@ pub fn search_random(game: &mut Game) {
 //Start a search, max_time = -1 for no limit
 pub fn search(game: &mut Game, depth: i8, max_time: i64, io_receiver: &IoWrapper, tt: &mut TranspositionTable, rep_table: &mut RepetitionTable) -> SearchResult {
 
+    #[cfg(jence_verif)]
+    if let Some(r) = crate::verif_driver::on_search_entry(depth, max_time) { return r; }
+
     let mut envir = SearchEnv::new(max_time, io_receiver, tt, rep_table);
 
     let mut score = 0;
@@ -68,6 +71,9 @@ pub fn search(game: &mut Game, depth: i8, max_time: i64, io_receiver: &IoWrapper
         current_depth += 1;
     }
 
+    #[cfg(jence_verif)]
+    crate::verif_driver::on_search_end(&envir);
+
     print!("bestmove {}\n", envir.pv_table[0][0].to_uci());
 
     SearchResult::new(envir.pv_table[0][0], envir.nodes, score, current_depth - 1, !envir.stopping, envir.tt_hits)
@@ -87,6 +93,9 @@ fn enable_pv_scoring(moves: &MoveList, envir: &mut SearchEnv) {
 #[inline]
 fn negamax(game: &mut Game, depth: u8, alpha: i32, beta: i32, envir: &mut SearchEnv) -> i32 {
     
+    #[cfg(jence_verif)]
+    crate::verif_driver::on_node(0, game, depth, alpha, beta, envir);
+
     let is_pv_node = (beta - alpha) > 1;
 
     let mut score;
@@ -94,6 +103,8 @@ fn negamax(game: &mut Game, depth: u8, alpha: i32, beta: i32, envir: &mut Search
         score = envir.transposition_table.probe(game.zobrist_hash, depth, alpha, beta, envir.ply);
         if score != UNKNOWN_SCORE {
             envir.tt_hits += 1;
+            #[cfg(jence_verif)]
+            crate::verif_driver::on_tt_hit(score);
             return score;
         }
     }
@@ -101,6 +112,8 @@ fn negamax(game: &mut Game, depth: u8, alpha: i32, beta: i32, envir: &mut Search
     envir.pv_lengths[envir.ply as usize] = envir.ply as usize;
 
     if envir.ply > 0 && envir.repetition_table.is_now_in_threefold_repetition() {
+        #[cfg(jence_verif)]
+        crate::verif_driver::on_rep_hit();
         return 0;
     }
 
@@ -108,6 +121,9 @@ fn negamax(game: &mut Game, depth: u8, alpha: i32, beta: i32, envir: &mut Search
     if envir.ply >= MAX_PLY as u8 - 1  {
         return evaluate(&game);
     }
+
+    #[cfg(jence_verif)]
+    if crate::verif_driver::extra_poll(envir.nodes) { envir.poll_input() }
 
     if envir.nodes & INPUT_POLL_INTERVAL == 0 {
         envir.poll_input()
@@ -256,6 +272,8 @@ fn negamax(game: &mut Game, depth: u8, alpha: i32, beta: i32, envir: &mut Search
 
     //Mate & Draw
     if legal_moves == 0 {
+        #[cfg(jence_verif)]
+        crate::verif_driver::on_verdict(in_check);
         if in_check {
             return -MATE_VALUE + envir.ply as i32;
         }
@@ -272,6 +290,12 @@ fn negamax(game: &mut Game, depth: u8, alpha: i32, beta: i32, envir: &mut Search
 
 #[inline]
 fn quiescence(game: &mut Game, alpha: i32, beta: i32, envir: &mut SearchEnv) -> i32 {
+    #[cfg(jence_verif)]
+    crate::verif_driver::on_node(1, game, 0, alpha, beta, envir);
+
+    #[cfg(jence_verif)]
+    if crate::verif_driver::extra_poll(envir.nodes) { envir.poll_input() }
+
     if envir.nodes & INPUT_POLL_INTERVAL == 0 {
         envir.poll_input()
     }
@@ -415,6 +439,9 @@ impl <'a>SearchEnv<'a> {
     pub fn insert_pv_node(&mut self, cmove: Move) {
         let ply = self.ply as usize;
 
+        #[cfg(jence_verif)]
+        crate::verif_driver::on_pv_insert(ply, cmove);
+
         self.pv_table[ply][ply] = cmove;
         
         for next_ply in (ply + 1)..self.pv_lengths[ply + 1] {
@@ -425,6 +452,12 @@ impl <'a>SearchEnv<'a> {
     }
 
     pub fn poll_input(&mut self) {
+        #[cfg(jence_verif)]
+        if let Some(stop) = crate::verif_driver::on_poll(self.nodes, self.stopping) {
+            if stop { self.stopping = true; }
+            return;
+        }
+
         if (self.max_time != -1 && self.start_time.elapsed().unwrap().as_millis() as i64 >= self.max_time) || self.io_receiver.try_read_line().is_some() {
             self.stopping = true;
             return;
